@@ -108,6 +108,79 @@ fn diff_logs(t: &Trace, a: &[StepLog], b: &[StepLog]) -> Option<(usize, String)>
     None
 }
 
+/// suffix of the oracle name of every C18 violation whose injected panic fell inside an in-place
+/// rehash of a hash index (see known_findings.json, F1)
+pub const REHASH_TAG: &str = "@hash_panic_in_index_rehash";
+
+/// Call numbers (1-based) that lie inside a rehash of a hash index: a run of hasher-only calls
+/// (build_hasher, Hash of a stored key, finish) that hashes at least four stored keys in a row.
+/// An ordinary operation hashes the probe key, then compares or drops something.
+/// Only rehashes that an insertion starts by itself count (put-like, get-like and macro events):
+/// the forced re-hash event, `resize` and `clone` rebuild the table by another path.
+pub fn rehash_points(t: &Trace, kinds: &[(u8, u32)]) -> Vec<u64> {
+    use crate::ops::Code;
+    let is_h = |k: u8| matches!(k, 0 | 8 | 9 | 10);
+    let counts = |e: u32| -> bool {
+        match t.events.get(e as usize) {
+            Some(ev) => !matches!(ev.op.code, Code::Rehash | Code::Resize | Code::Fork | Code::DropTwin | Code::Purge),
+            None => false,
+        }
+    };
+    let mut out = Vec::new();
+    let mut i = 0;
+    while i < kinds.len() {
+        if !is_h(kinds[i].0) {
+            i += 1;
+            continue;
+        }
+        let s = i;
+        let mut hk = 0;
+        while i < kinds.len() && is_h(kinds[i].0) && kinds[i].1 == kinds[s].1 {
+            if kinds[i].0 == 0 {
+                hk += 1;
+            }
+            i += 1;
+        }
+        if hk >= 4 && counts(kinds[s].1) {
+            out.extend((s..i).map(|j| j as u64 + 1));
+        }
+    }
+    out
+}
+
+/// does the (first) injection point of this fault-carrying trace fall inside an index rehash?
+pub fn fault_in_rehash(t: &Trace) -> bool {
+    let f = match t.faults.first() {
+        Some(f) => *f,
+        None => return false,
+    };
+    if !t.events.iter().any(|e| e.op.code == crate::ops::Code::Fill) {
+        return false;
+    }
+    let mut c = t.clone();
+    c.faults.clear();
+    c.env_b = None;
+    c.prop = "C18".into();
+    let r = execute(
+        &c,
+        Opts {
+            oracles: false,
+            keep_log: false,
+            collect_distinct: false,
+            lean: true,
+        },
+    );
+    rehash_points(&c, &r.kind_log).binary_search(&f).is_ok()
+}
+
+fn tag_rehash(out: &mut CaseResult, from: usize) {
+    for (v, _) in out.violations.iter_mut().skip(from) {
+        if v.prop == "C18" && !v.oracle.ends_with(REHASH_TAG) {
+            v.oracle = format!("{}{}", v.oracle, REHASH_TAG);
+        }
+    }
+}
+
 fn absorb(out: &mut CaseResult, r: &ExecResult, t: &Trace) {
     out.executions += 1;
     out.events += r.stats.counters.get("events").copied().unwrap_or(0);
@@ -138,6 +211,10 @@ pub fn run_case(t: &Trace) -> CaseResult {
     };
     let explicit_faults = !t.faults.is_empty();
     let keep = t.env_b.is_some();
+    // replayed fault traces: is the injection point inside an index rehash? (decides the containment
+    // probe and the class of what is found)
+    let replay_in_rehash = explicit_faults && fault_in_rehash(t);
+    crate::world::set_index_probe(replay_in_rehash);
     let base = execute(
         t,
         Opts {
@@ -150,6 +227,10 @@ pub fn run_case(t: &Trace) -> CaseResult {
     absorb(&mut out, &base, t);
     if explicit_faults {
         count_fault(&mut out, &base);
+        crate::world::set_index_probe(false);
+        if replay_in_rehash {
+            tag_rehash(&mut out, 0);
+        }
         return out;
     }
     // differential second execution
@@ -209,8 +290,19 @@ pub fn run_case(t: &Trace) -> CaseResult {
     if t.prop == "C18" && base.violations.is_empty() {
         let n = base.calls;
         let mut rs = Rng::stream(crate::rng::run_seed(t.seed, "C18", t.run_index), "faults");
+        // long histories (macro events): the calls made while a hash index rehashes its stored keys
+        // are few and special, so they are all candidates; the rest is sampled
+        let bursts = rehash_points(t, &base.kind_log);
         let points: Vec<u64> = if n <= 400 {
             (1..=n).collect()
+        } else if !bursts.is_empty() {
+            let step = (bursts.len() / 160).max(1);
+            let mut v: Vec<u64> = bursts.iter().step_by(step).copied().collect();
+            v.extend((0..120).map(|_| rs.range(1, n)));
+            v.sort_unstable();
+            v.dedup();
+            out.stats.bump("c18_histories_with_index_rehash");
+            v
         } else {
             let mut v: Vec<u64> = (0..400).map(|_| rs.range(1, n)).collect();
             v.sort_unstable();
@@ -218,7 +310,13 @@ pub fn run_case(t: &Trace) -> CaseResult {
             v
         };
         let double = rs.chance(1, 10);
+        let mut tagged = 0usize;
         for i in points {
+            let in_rehash = bursts.binary_search(&i).is_ok();
+            if in_rehash && tagged >= 2 {
+                // (two instances per history are enough; they must not use up the violation budget)
+                continue;
+            }
             crate::sup::note_fault(i);
             let mut tf = t.clone();
             tf.faults = vec![i];
@@ -226,6 +324,7 @@ pub fn run_case(t: &Trace) -> CaseResult {
                 tf.faults.push(i + rs.range(1, 40));
             }
             tf.env_b = None;
+            crate::world::set_index_probe(in_rehash);
             let r = execute(
                 &tf,
                 Opts {
@@ -235,9 +334,18 @@ pub fn run_case(t: &Trace) -> CaseResult {
                     lean: crate::exec::lean_mode(),
                 },
             );
+            crate::world::set_index_probe(false);
+            let before = out.violations.len();
             absorb(&mut out, &r, &tf);
             count_fault(&mut out, &r);
-            if out.violations.len() >= 4 {
+            if in_rehash {
+                out.stats.bump("fault_fired:user_panic_inside_index_rehash");
+                tag_rehash(&mut out, before);
+                if out.violations.len() > before {
+                    tagged += 1;
+                }
+            }
+            if out.violations.iter().filter(|(v, _)| !v.oracle.ends_with(REHASH_TAG)).count() >= 4 {
                 break;
             }
         }
